@@ -40,6 +40,12 @@ def multi_sizes(rng, n):
 
 
 def gen_alphabet(rng):
+    # wide alphabets: many distinct mixed sizes at once, so that the free tree of the
+    # mixed-size pieces grows beyond one node (its B-tree has 16..31 keys per node)
+    if rng.chance(1, 6):
+        n = rng.loguniform(40, 300)
+        top = rng.choice([60, 120, 250])
+        return sorted(set(max(257, 256 * rng.range(1, top) - 32 + rng.choice([0, 0, 0, -1, 1, -17, 100])) for _ in range(n)))
     fams = [("fix", 5), ("bnd", 2), ("mixed", 4), ("multi", 2), ("cluster", 3), ("tiny", 1)]
     on = [f for f in fams if rng.chance(2, 3)] or [rng.choice(fams)]
     n = rng.range(2, 8)
@@ -286,7 +292,7 @@ def minimise(binfo, scratch, variant, plan, hist, key, budget_runs=300):
         opt_plan, _ = checklib.ddmin(opt_plan, lambda sub: fails_with(keep_plan + sub, ops), 30) if len(opt_plan) > 1 else (opt_plan, 0)
     p2 = keep_plan + opt_plan
     # 2. operations
-    ops2, runs = checklib.ddmin(ops, lambda sub: fails_with(p2, sub), budget_runs)
+    ops2, runs = checklib.ddmin_par(ops, lambda sub: fails_with(p2, sub))
     return p2, cfg + ops2, runs
 
 
